@@ -440,6 +440,10 @@ def run_property(mod, tier, jobs=None, seed=0):
         if r["unknown"]:
             problems.append("%s: solver returned unknown %d times" % (r["case"], r["unknown"]))
         for rp in r["replays"]:
+            if rp["key"].endswith("@harness"):
+                problems.append("%s: exception inside the harness itself (not a verdict): %s\n%s"
+                                % (r["case"], rp["key"], rp.get("tb") or ""))
+                continue
             if not rp["reproduced"]:
                 nonrepro.append((r["case"], rp))
                 continue
